@@ -430,3 +430,120 @@ class columns_mctc:
             yield "on-refusal-nothing-changes", unchanged
 
     loops = {0: Loop(invariant=_mctc_loop, shapes={"best": BEST})}
+
+
+# ================================================================================================ render
+
+_R = z3.Function("columns$R", z3.IntSort(), z3.IntSort())
+
+
+def R(k):
+    """R(k): rows of the tallest visible column below k as drawn (0 if none).  R(0) = 0,
+    R(j+1) = max(R(j), rows child j draws at its size argument if w_j > 0 else 0)."""
+    return mk_int(_R(V._z(k)))
+
+
+def r_unfold(s, geo, focus, j):
+    """Definition of R at j, plus the instances of lemma `columns-r-monotone` (a running maximum never decreases)."""
+    st = cur()
+    m = Q.seq_len(geo[0])
+    zj, zm = V._z(j), V._z(m)
+    ok = z3.And(zj >= 0, zj < zm)
+    t = ite(Q.seq_get(geo[0], j) > 0, drawn_rows(s, geo, j, focus), 0)
+    st.assume(_R(z3.IntVal(0)) == 0)
+    st.assume(z3.Implies(ok, _R(zj + 1) == V._z(imax(R(j), t))))
+    st.assume(z3.Implies(ok, z3.And(_R(zj) >= 0, _R(zj + 1) <= _R(zm))))
+
+
+def _last_divider(widths, d, i):
+    """The last displayed column carries no divider: what X(i) counts too much once the loop is through."""
+    m = Q.seq_len(widths)
+    return ite(both(i == m, m > 0, Q.seq_get(widths, m - 1) > 0), d, 0)
+
+
+def _focus_cursor(s, geo, focus, upto):
+    """(shown, x, y): the cursor the focus child's canvas contributes to the join -- it is rendered with focus, is
+    displayed below `upto` with a positive width, and its cursor lies inside the width given to it."""
+    st = cur()
+    W = PROTOCOLS["Widget"]
+    widths = geo[0]
+    m = Q.seq_len(widths)
+    fp = s._contents._focus
+    d = s.dividechars
+    if not both(0 <= fp, fp < m, fp < upto):
+        return False, 0, 0
+    canv = W.call_quiet(st, item_at(s, fp)[0], "render", dict(size=Q.seq_get(geo[2], fp), focus=focus))
+    cu = canv.cursor
+    given = Q.seq_get(widths, fp) + ite(fp < m - 1, d, 0)
+    return both(focus, Q.seq_get(widths, fp) > 0, neg(mk_bool(cu.isnone)), cu.val[0] < given), cu.val[0], cu.val[1]
+
+
+def _render_loop(v):
+    """The list built so far joins to: width X(i) (less the last divider), height R(i), the focus child's cursor."""
+    st = cur()
+    i = v.i_
+    old = v.old.self
+    focus = v.old.focus
+    geo = (v.widths, None, v.size_args)
+    widths = v.widths
+    d = old.dividechars
+    fp = old._contents._focus
+    for k in (i - 1, i):
+        x_unfold(widths, d, k)
+        r_unfold(old, geo, focus, k)
+    fo = JoinFold.of(v.data)
+    yield "joined-width-is-the-left-edge-of-column-i", fo["cols"] == X(i) - _last_divider(widths, d, i)
+    yield "empty-iff-nothing-visible-yet", both(fo["n"] >= 0, eq(fo["n"] == 0, X(i) == 0))
+    yield "joined-height-is-the-tallest-column-so-far", fo["rows"] == R(i)
+    yield "every-part-fits-its-width", fo["ok"]
+    shown, cx, cy = _focus_cursor(old, geo, focus, i)
+    yield "cursor-so-far-is-the-focus-childs-shifted", both(eq(fo["has"], shown), implies(shown, both(fo["cx"] == cx + X(fp), fo["cy"] == cy)))
+    mark = v.trace_mark_
+    if mark is not None:
+        rc = [e for e in st.trace[mark:] if e[0] == "call" and e[2] == "render"]
+        yield "only-the-focus-child-is-rendered-with-focus", both(len(rc) <= 1, *[eq(e[3]["focus"], both(focus, fp == i - 1)) for e in rc])
+    yield "self-untouched", both(v.self._contents._focus == fp, n_items(v.self) == n_items(old), v.self.dividechars == d, eq(v.focus, focus))
+
+
+@contract(CO + "Columns.render", property=("C09", "C01", "C08"), inline=INL, replayable=False)
+class columns_render:
+    """C01 (ii): the canvas is size[0] wide and as tall as the tallest column drawn; C09 (i): its cursor is the focus
+    child's canvas cursor shifted right by X(focus); C08: only the focus child is rendered with focus."""
+
+    self_shape = COLUMNS
+    params = dict(size=SIZE, focus=Bool)
+    result = CCANVAS
+    invariant = staticmethod(pile_ri)
+    setup = staticmethod(ghost_setup)
+
+    def requires(s, a):
+        geo = sizes_of(s, a.size, a.focus)
+        m = Q.seq_len(geo[0])
+        x_unfold(geo[0], s.dividechars, m - 1)
+        # fit precondition: the displayed columns and their dividers fit the width (Columns.column_widths, C19)
+        fits = X(m) - _last_divider(geo[0], s.dividechars, m) <= a.size[0]
+        return both(columns_wf(s), size_ok(a.size), fits)
+
+    def ensures(old, s, a, r):
+        st = cur()
+        geo = sizes_of(old, a.size, a.focus)
+        widths = geo[0]
+        m = Q.seq_len(widths)
+        d = old.dividechars
+        fp = old._contents._focus
+        J = st.ghost["any_column"]
+        x_unfold(widths, d, m - 1)
+        r_unfold(old, geo, a.focus, m - 1)
+        yield "width", r.ncols == a.size[0]
+        if X(m) == 0:
+            yield "nothing-visible-a-blank-canvas", both(r.nrows == (a.size[1] if len(a.size) == 2 else 1), mk_bool(r.cursor.isnone))
+            return
+        yield "height-is-the-tallest-column-drawn", r.nrows == R(m)
+        r_unfold(old, geo, a.focus, J)
+        yield "no-column-is-cut-short", implies(both(0 <= J, J < m, Q.seq_get(widths, J) > 0), r.nrows >= drawn_rows(old, geo, J, a.focus))
+        shown, cx, cy = _focus_cursor(old, geo, a.focus, m)
+        yield "cursor-is-the-focus-childs-shifted-by-the-columns-to-its-left", both(
+            eq(neg(mk_bool(r.cursor.isnone)), shown), implies(shown, both(r.cursor.val[0] == cx + X(fp), r.cursor.val[1] == cy)))
+        yield "nothing-written", both(s._contents._focus == fp, n_items(s) == n_items(old))
+
+    loops = {0: Loop(invariant=_render_loop, shapes={"data": JoinList()})}
